@@ -5,8 +5,9 @@ Import ListNotations.
 Open Scope N_scope.
 
 Definition w32 : N := 4294967296.
-Definition add32 (a b : N) : N := (a + b) mod w32.
-Definition rotr (n x : N) : N := N.lor (N.shiftr x n) ((N.shiftl x (32 - n)) mod w32).
+Definition mask32 : N := 4294967295.
+Definition add32 (a b : N) : N := N.land (a + b) mask32.
+Definition rotr (n x : N) : N := N.lor (N.shiftr x n) (N.land (N.shiftl x (32 - n)) mask32).
 Definition shr (n x : N) : N := N.shiftr x n.
 Definition not32 (x : N) : N := N.lxor x 4294967295.
 Definition ch (x y z : N) : N := N.lxor (N.land x y) (N.land (not32 x) z).
